@@ -262,6 +262,8 @@ package cache
 // handler callback receives (old, new) in that order.
 //@ func (*eventProcessor).Run
 //@ requires e != nil
+// the dispatcher calls the handlers itself, one event after the other (C14)
+//@ sequential
 //@ trace chan-recv:e.events sync.(*Mutex).Unlock
 //@ at call cache.EventHandler.OnAdd requires wheld(e.handlersMutex) >= 1 && arg1 == event.new
 //@ at call cache.EventHandler.OnUpdate requires wheld(e.handlersMutex) >= 1 && arg1 == event.old && arg2 == event.new
